@@ -131,6 +131,39 @@ impl C11 {
             };
             cfgs.push(Config { limit: first, stop: None, with_stack: base_cfg.with_stack, relimit: Some((j, n2)) });
         }
+        // the driver itself calls stop() between two steps (no hook involved): the run is over from then on
+        if len >= 2 {
+            let j = rng.below(len);
+            if let Some(mut m) = self.build(&prog, &base_cfg) {
+                let mut ok = true;
+                for _ in 0..j {
+                    if !matches!(call(|| block_on(m.step())), Call::Ok(true)) {
+                        ok = false;
+                        break;
+                    }
+                }
+                if ok && !m.verif_finished() {
+                    m.stop();
+                    col.distinct_key("driver-stop");
+                    let before = snapshot(&m);
+                    let fail = |col: &mut Collector, rule: &str, detail: String| {
+                        col.violation_case(&format!("loop:{}", rule), k, format!("{} (stop() called by the driver after {} steps, program shape {})", detail, j, prog.shape), json!({"program_hex": hex(&prog.code), "problem": detail}));
+                    };
+                    if !before.finished {
+                        return fail(col, "driver-stop-ignored", "stop() between two steps left the run unfinished".into());
+                    }
+                    for (what, r) in [("step", call(|| block_on(m.step())).kind()), ("execute", call(|| block_on(m.execute())).kind())] {
+                        col.eval(1);
+                        if r != "err" {
+                            return fail(col, "step-after-driver-stop-succeeded", format!("{}() after stop() -> {}", what, r));
+                        }
+                        if let Some(d) = snapshot_diff(&before, &snapshot(&m)) {
+                            return fail(col, "refused-step-changed-state", format!("{}() after stop() changed state: {}", what, d));
+                        }
+                    }
+                }
+            }
+        }
         for cfg in cfgs {
             if self.run_cfg(k, col, &prog, &cfg, len).is_some() {
                 return;
